@@ -28,6 +28,8 @@ type Feat struct {
 	Callbacks      bool
 	Info           bool
 	LocPC          bool // LocationForPC on some declared constructors (C18: IDs are still per function)
+	DeepChains     bool // a share of the runs builds one long dependency path (tmplDeepChain)
+	LocPCDyn       bool // ... and on reflect-made ones, which all share one code address (C20: the Name is the one of the given location)
 	NamedSlice     bool
 	Wild           float64 // probability that a constructor ignores the rank discipline
 	PAvail         float64 // probability of picking an available dependency
@@ -377,6 +379,7 @@ func (g *genCtx) genCtor(s int) *Func {
 	f.Variadic = ft.Variadic && g.r.P(ft.PVariadic)
 	f.OptNoise = g.r.P(0.06)
 	f.Callback = f.Callback || (ft.Callbacks && g.r.P(0.5))
+	f.LocPC = ft.LocPC && ft.LocPCDyn && g.r.P(0.3)
 	return f
 }
 
@@ -734,6 +737,11 @@ func (g *genCtx) opInvoke(s int) {
 		f = &g.h.Funcs[fid] // genCtor may have grown the slice
 		f.ThenProvide, f.ThenScope = ctor.ID+1, ps
 		g.pendingThen = &thenReg{scope: ps, fn: ctor.ID}
+		if g.r.P(0.35) {
+			// ... and then fails: the registration stands, the Invoke is an error
+			f.HasErr = true
+			g.h.Faults = append(g.h.Faults, Fault{Fn: f.ID, From: 0, To: -1, Kind: FaultErr})
+		}
 	}
 	g.addOp(Op{Kind: OpInvoke, Scope: s, Fn: f.ID})
 	if g.pendingThen != nil {
@@ -990,16 +998,80 @@ func (g *genCtx) tmplCrossSiblingCycle() {
 	p := g.r.Perm(g.ft.NT)
 	a, b, x, y := p[0], p[1], p[2], p[3]
 	s1, s2 := 1, 2
+	ctorA := func() { g.simpleCtor(s1, []int{x}, a, true, "cross-sibling") }
+	var more []func()
+	if !g.ft.Catalog && g.ft.NT+3 <= NumK && g.r.P(0.3) {
+		// a constructor of the loop has an optional dependency, listed first,
+		// whose provider gives up every time it is tried: the value it needs
+		// is decorated by a decorator with a dependency nobody provides
+		q, z, u := g.ft.NT, g.ft.NT+1, g.ft.NT+2
+		ctorA = func() {
+			f := g.newFunc(RoleCtor)
+			f.Params = []Param{{Kind: PObj, Fields: []Param{{Kind: PSingle, T: q, Opt: true}}}, {Kind: PSingle, T: x}}
+			f.Results = []Result{{Kind: RSingle, T: a}}
+			f.HasErr = g.r.P(0.5)
+			f.Export = true
+			i := g.addOp(Op{Kind: OpProvide, Scope: s1, Fn: f.ID, Tag: "cross-sibling"})
+			if g.m.PredictProvide(s1, f) == PredOK {
+				g.m.AddCtor(s1, i, f)
+			}
+		}
+		zs := []int{0, s1}[g.r.Intn(2)]
+		more = []func(){
+			func() { g.simpleCtor(s1, []int{z}, q, false, "cross-sibling") },
+			func() { g.simpleCtor(zs, nil, z, false, "cross-sibling") },
+			func() { g.simpleDec(s1, z, []int{u}, "cross-sibling") },
+		}
+	}
 	steps := []func(){
 		func() { g.simpleCtor(s1, []int{b}, x, false, "cross-sibling") },
-		func() { g.simpleCtor(s1, []int{x}, a, true, "cross-sibling") },
+		ctorA,
 		func() { g.simpleCtor(s2, []int{a}, y, false, "cross-sibling") },
 		func() { g.simpleCtor(s2, []int{y}, b, true, "cross-sibling") },
+	}
+	steps = append(steps, more...)
+	if g.r.P(0.4) {
+		// the loop passes through decorated values: decorators start and
+		// complete (or give up for a dependency nobody provides) while the
+		// constructors of the loop are being built
+		for n := g.r.Range(1, 2); n > 0; n-- {
+			sc, k := s1, x
+			if g.r.P(0.5) {
+				sc, k = s2, y
+			}
+			var extra []int
+			if g.ft.NT > 4 && g.r.P(0.4) {
+				extra = []int{p[4]} // often unprovided
+			}
+			steps = append(steps, func() { g.simpleDec(sc, k, extra, "cross-sibling") })
+		}
 	}
 	for _, i := range g.r.Perm(len(steps)) {
 		steps[i]()
 	}
 	g.simpleInvoke([]int{0, s1, s2}[g.r.Intn(3)], []int{[]int{a, b}[g.r.Intn(2)]}, "cross-sibling")
+	if g.r.P(0.3) {
+		g.simpleInvoke([]int{0, s1, s2}[g.r.Intn(3)], []int{[]int{a, b}[g.r.Intn(2)]}, "cross-sibling")
+	}
+}
+
+// simpleDec: a decorator func(k, extra...) k registered in s.
+func (g *genCtx) simpleDec(s, k int, extra []int, tag string) {
+	f := g.newFunc(RoleDec)
+	f.Params = []Param{{Kind: PSingle, T: k}}
+	for _, t := range extra {
+		if g.r.P(0.5) {
+			f.Params = append(f.Params, Param{Kind: PObj, Fields: []Param{{Kind: PSingle, T: t, Opt: true}}})
+		} else {
+			f.Params = append(f.Params, Param{Kind: PSingle, T: t})
+		}
+	}
+	f.Results = []Result{{Kind: RSingle, T: k}}
+	f.HasErr = g.r.P(0.3)
+	i := g.addOp(Op{Kind: OpDecorate, Scope: s, Fn: f.ID, Tag: tag})
+	if g.m.PredictDecorate(s, f) == PredOK {
+		g.m.AddDec(s, i, f)
+	}
 }
 
 // tmplDescendantCycle: a Provide to an ancestor closes a cycle that exists only
@@ -1242,6 +1314,45 @@ func (g *genCtx) tmplSliceMembers() {
 	for n := g.r.Range(1, 4); n > 0; n-- {
 		feeder()
 	}
+	if (g.ft.GroupDecs || g.ft.Soft) && g.r.P(0.5) {
+		// the same group *name* with element types T and []T: two different
+		// groups. The one of []T is decorated; the one of T has feeders of its
+		// own and is consumed softly and in full, before and after the
+		// decorated one was built.
+		base := t - TSlice
+		ds := path[g.r.Intn(len(path))]
+		dec := g.newFunc(RoleDec)
+		dec.Params = []Param{{Kind: PObj, Fields: []Param{{Kind: PGroup, T: t, Group: grp}}}}
+		dec.Results = []Result{{Kind: RObj, Fields: []Result{{Kind: RGroup, T: t, Group: grp}}}}
+		dec.HasErr = g.r.P(0.3)
+		i := g.addOp(Op{Kind: OpDecorate, Scope: ds, Fn: dec.ID, Tag: "slice-members"})
+		if g.m.PredictDecorate(ds, dec) == PredOK {
+			g.m.AddDec(ds, i, dec)
+		}
+		for n := g.r.Range(0, 2); n > 0; n-- {
+			fs := path[g.r.Intn(len(path))]
+			f := g.newFunc(RoleCtor)
+			f.Results = []Result{{Kind: RObj, Fields: []Result{{Kind: RGroup, T: base, Group: grp}}}}
+			f.HasErr = g.r.P(0.5)
+			j := g.addOp(Op{Kind: OpProvide, Scope: fs, Fn: f.ID, Tag: "slice-members"})
+			if g.m.PredictProvide(fs, f) == PredOK {
+				g.m.AddCtor(fs, j, f)
+			}
+		}
+		ask := func(soft bool) {
+			sub := g.m.Subtree(s)
+			inv := g.newFunc(RoleInv)
+			inv.Params = []Param{{Kind: PObj, Fields: []Param{{Kind: PGroup, T: base, Group: grp, Soft: soft}}}}
+			g.addOp(Op{Kind: OpInvoke, Scope: sub[g.r.Intn(len(sub))], Fn: inv.ID, Tag: "slice-members"})
+		}
+		ask(true)
+		if g.r.P(0.5) {
+			request()
+			ask(g.r.P(0.5))
+		} else {
+			ask(false)
+		}
+	}
 	request()
 	if g.r.P(0.6) {
 		feeder()
@@ -1356,5 +1467,294 @@ func (g *genCtx) tmplGroupFailure() {
 		g.addOp(Op{Kind: OpInvoke, Scope: s, Fn: inv.ID, Tag: "group-failure"})
 		g.addOp(Op{Kind: OpVisualize, ErrFrom: len(g.h.Ops)})
 		return
+	}
+}
+
+// tmplDeepChain: a dependency path of many distinct constructors -- continued
+// through the child scopes of one branch, where keys of the outer levels may
+// be provided again -- whose bottom link fails (injected fault) or lacks a
+// dependency. The Invoke at the far end walks the whole path; the failure is
+// visualized and the Invoke retried (root cause and transitive failures, error
+// chains, rollback and retry on paths far longer than random registration
+// produces). Declared functions where the run uses the catalogue (the chain
+// links of chainSpecs), reflect-made ones otherwise.
+func (g *genCtx) tmplDeepChain() {
+	if g.ft.Catalog && len(catSpecs) == 0 {
+		return
+	}
+	s := 0
+	for x := range g.m.S {
+		if g.m.Depth(x) > g.m.Depth(s) {
+			s = x
+		}
+	}
+	path := g.m.Path(s) // s first, root last
+	want := g.r.Range(4, 22)
+	missing := g.r.P(0.3)
+	var chain []int
+	var last Key
+	for li := len(path) - 1; li >= 0 && len(chain) < want; li-- {
+		sc := path[li]
+		perLevel := g.r.Range(2, 9)
+		if li == 0 {
+			perLevel = want
+		}
+		for n := 0; n < perLevel && len(chain) < want; n++ {
+			var f *Func
+			if g.ft.Catalog {
+				idx := g.chainLink(sc, last, len(chain) > 0, missing && len(chain) == 0)
+				if idx < 0 {
+					break
+				}
+				f = g.fromCatalog(idx)
+			} else if f = g.dynLink(sc, last, len(chain) > 0, missing && len(chain) == 0); f == nil {
+				break
+			}
+			i := g.addOp(Op{Kind: OpProvide, Scope: sc, Fn: f.ID, Tag: "deep-chain"})
+			g.m.AddCtor(sc, i, f)
+			chain = append(chain, f.ID)
+			ks := singleKeys(f.LeafResults())
+			last = ks[g.r.Intn(len(ks))]
+		}
+	}
+	if len(chain) < 3 {
+		return
+	}
+	if !missing {
+		bad := chain[0]
+		if g.r.P(0.3) {
+			bad = chain[g.r.Intn(len(chain))]
+		}
+		to := -1
+		if g.r.P(0.4) {
+			to = 1 // transient: the retry below succeeds
+		}
+		g.h.Faults = append(g.h.Faults, Fault{Fn: bad, From: 0, To: to, Kind: FaultKind(g.r.Range(1, 3))})
+	}
+	inv := g.newFunc(RoleInv)
+	inv.Params = []Param{{Kind: PObj, Fields: []Param{{Kind: PSingle, T: last.T, Name: last.Name}}}}
+	g.addOp(Op{Kind: OpInvoke, Scope: s, Fn: inv.ID, Tag: "deep-chain"})
+	if g.ft.Catalog || g.r.P(0.3) {
+		g.addOp(Op{Kind: OpVisualize, ErrFrom: len(g.h.Ops)})
+	}
+	if g.r.P(0.5) {
+		g.retryInvoke(s, inv.ID)
+	}
+}
+
+// dynLink: a reflect-made constructor func(last) (k[, error]) for a single key
+// k that is still free in sc (bottom link: no parameter, or -- wantMissing --
+// one that nobody visible from sc provides).
+func (g *genCtx) dynLink(sc int, last Key, cont, wantMissing bool) *Func {
+	names := append([]string{""}, g.ft.Names...)
+	var free, absent []Key
+	for t := 0; t < g.ft.NT; t++ {
+		for _, n := range names {
+			k := Key{T: t, Name: n}
+			if len(g.m.S[sc].Prov[k]) == 0 && (!cont || k != last) {
+				free = append(free, k)
+			}
+			if len(g.m.AllProv(sc, k)) == 0 {
+				absent = append(absent, k)
+			}
+		}
+	}
+	single := func(k Key) Param {
+		p := Param{Kind: PSingle, T: k.T, Name: k.Name}
+		if k.Name != "" {
+			p = Param{Kind: PObj, Fields: []Param{p}}
+		}
+		return p
+	}
+	var params []Param
+	switch {
+	case cont:
+		params = []Param{single(last)}
+	case wantMissing:
+		if len(absent) < 2 {
+			return nil
+		}
+		params = []Param{single(absent[g.r.Intn(len(absent))])}
+	}
+	for _, i := range g.r.Perm(len(free)) {
+		k := free[i]
+		if len(params) > 0 && params[0].Kind == PSingle && params[0].T == k.T && params[0].Name == k.Name {
+			continue
+		}
+		r := Result{Kind: RSingle, T: k.T, Name: k.Name}
+		if k.Name != "" {
+			r = Result{Kind: RObj, Fields: []Result{r}}
+		}
+		tmp := Func{ID: -1, Cat: -1, Role: RoleCtor, Params: params, Results: []Result{r}}
+		if wantMissing && !cont {
+			if lp := tmp.LeafParams(); len(lp) == 1 && lp[0].Key == k {
+				continue
+			}
+		}
+		if g.m.PredictProvide(sc, &tmp) != PredOK {
+			continue
+		}
+		f := g.newFunc(RoleCtor)
+		f.Params, f.Results = params, []Result{r}
+		f.HasErr = g.r.P(0.6)
+		f.Callback = g.ft.Callbacks && g.r.P(0.3)
+		return f
+	}
+	return nil
+}
+
+// chainLink picks an unused declared constructor that can be registered in sc,
+// requires the key `last` (when cont) and otherwise only what is visible from
+// sc -- or, for the bottom link of a "missing" chain, lacks something.
+// Constructors whose only required dependency is `last` are preferred, so that
+// the failure the Invoke meets is the one at the bottom of the chain.
+func (g *genCtx) chainLink(sc int, last Key, cont, wantMissing bool) int {
+	second := -1
+	for _, idx := range g.r.Perm(catCtors + catChain) {
+		if idx >= catCtors {
+			idx += catDecs + catInvs // the chain links come behind the seeded ranges
+		}
+		spec := &catSpecs[idx]
+		if g.catUsed[idx] || spec.Export || len(singleKeys(spec.LeafResults())) == 0 {
+			continue
+		}
+		req, usesLast := 0, false
+		for _, p := range spec.LeafParams() {
+			if p.Key.IsGroup() || p.Opt {
+				continue
+			}
+			req++
+			if cont && p.Key == last {
+				usesLast = true
+			}
+		}
+		if cont && !usesLast {
+			continue
+		}
+		if wantMissing == g.depsVisible(sc, spec) {
+			continue
+		}
+		if !cont && !wantMissing && req > 1 {
+			continue
+		}
+		tmp := deepCopyFunc(spec)
+		tmp.ID, tmp.Cat = -1, idx
+		if g.m.PredictProvide(sc, &tmp) != PredOK {
+			continue
+		}
+		if req <= 1 {
+			return idx
+		}
+		if second < 0 {
+			second = idx
+		}
+	}
+	return second
+}
+
+// tmplHeal: what a constructor lacked appears later. A constructor C(D) -> R is
+// registered in a scope X (often exported, often two or more levels down)
+// while nobody X can see provides D; R is requested (mostly through an
+// optional field, from a scope that can see C); then D is registered in X or
+// in one of its ancestors (with or without Export) and R is requested again.
+// Whatever an earlier, given-up resolution left behind must not outlive the
+// registration that fills the gap (C04, C08, C03, C07).
+func (g *genCtx) tmplHeal() {
+	if g.ft.Catalog {
+		return
+	}
+	x := 0
+	for s := range g.m.S {
+		if g.m.Depth(s) > g.m.Depth(x) {
+			x = s
+		}
+	}
+	for g.m.Depth(x) < 2 && len(g.m.S) < 8 && g.r.P(0.8) {
+		g.addOp(Op{Kind: OpScope, Scope: x})
+		x = g.m.AddScope(x)
+	}
+	path := g.m.Path(x)
+	if g.r.P(0.25) {
+		x = path[g.r.Intn(len(path))]
+		path = g.m.Path(x)
+	}
+	names := append([]string{""}, g.ft.Names...)
+	var absent, free []Key
+	for t := 0; t < g.ft.NT; t++ {
+		for _, n := range names {
+			k := Key{T: t, Name: n}
+			if len(g.m.AllProv(x, k)) == 0 {
+				absent = append(absent, k)
+			}
+			if len(g.m.S[x].Prov[k]) == 0 && len(g.m.S[0].Prov[k]) == 0 {
+				free = append(free, k)
+			}
+		}
+	}
+	if len(absent) == 0 || len(free) < 2 {
+		return
+	}
+	d := absent[g.r.Intn(len(absent))]
+	var rk Key
+	found := false
+	for _, i := range g.r.Perm(len(free)) {
+		if free[i] != d {
+			rk, found = free[i], true
+			break
+		}
+	}
+	if !found {
+		return
+	}
+	single := func(k Key, opt bool) Param {
+		return Param{Kind: PObj, Fields: []Param{{Kind: PSingle, T: k.T, Name: k.Name, Opt: opt}}}
+	}
+	result := func(k Key) Result {
+		r := Result{Kind: RSingle, T: k.T, Name: k.Name}
+		if k.Name != "" {
+			r = Result{Kind: RObj, Fields: []Result{r}}
+		}
+		return r
+	}
+	provide := func(sc int, params []Param, k Key, export bool) bool {
+		tmp := Func{ID: -1, Cat: -1, Role: RoleCtor, Params: params, Results: []Result{result(k)}, Export: export && sc != 0}
+		if g.m.PredictProvide(sc, &tmp) != PredOK {
+			return false
+		}
+		f := g.newFunc(RoleCtor)
+		f.Params, f.Results, f.Export = tmp.Params, tmp.Results, tmp.Export
+		f.HasErr = g.r.P(0.3)
+		f.Callback = g.ft.Callbacks && g.r.P(0.3)
+		i := g.addOp(Op{Kind: OpProvide, Scope: sc, Fn: f.ID, Tag: "heal"})
+		g.m.AddCtor(sc, i, f)
+		return true
+	}
+	exported := g.r.P(0.5)
+	if !provide(x, []Param{single(d, false)}, rk, exported) {
+		return
+	}
+	exported = exported && x != 0
+	ask := func() {
+		var from []int
+		for y := range g.m.S {
+			if exported || g.m.IsAnc(x, y) {
+				from = append(from, y)
+			}
+		}
+		inv := g.newFunc(RoleInv)
+		inv.Params = []Param{single(rk, g.r.P(0.7))}
+		g.addOp(Op{Kind: OpInvoke, Scope: from[g.r.Intn(len(from))], Fn: inv.ID, Tag: "heal"})
+	}
+	ask()
+	if g.r.P(0.3) {
+		ask()
+	}
+	z := path[g.r.Intn(len(path))]
+	if !provide(z, nil, d, g.r.P(0.3)) {
+		return
+	}
+	ask()
+	if g.r.P(0.5) {
+		ask()
 	}
 }
